@@ -230,7 +230,9 @@ def rule_scalar_write(ctx, rep: Report, rid="K3", sizeof=SIZEOF_LP64, tag="LP64"
                         es is not None and sz is not None and sz <= es,
                         f"{name} writes a {pt} ({sz} bytes) into an array of class {cls} ({es} bytes)",
                         hloc(asg))
-    if n < 7:
+    # (seven on the pinned header; a converter may legitimately stop storing through a cast pointer - what it does instead is
+    #  judged by the evaluated round trips, K16 - so the guard only asks that the rule still finds most of its sites)
+    if n < 4 or (n < 7 and scalar_verdict(ctx) is None):
         raise AnalysisError(f"{rep.prop}/{rid}: {n} raw stores found, 7 expected")
 
 
@@ -637,7 +639,8 @@ def _fits(v, spec) -> bool:
     if spec[1] == "f":
         return isinstance(v, float) or float(v) == v and int(float(v)) == v
     if isinstance(v, float):
-        return v == int(v) and c_convert(int(v), spec) == int(v)
+        import math as _math
+        return _math.isfinite(v) and v == int(v) and c_convert(int(v), spec) == int(v)
     return c_convert(v, spec) == (bool(v) if spec[1] == "b" else v) and (spec[1] != "b" or v in (0, 1))
 
 
@@ -663,7 +666,7 @@ def scalar_converter_verdict(h) -> Optional[Dict[str, List[str]]]:
             pu = [p.get("name") for p in fu.get("inner", []) if p.get("kind") == "ParmVarDecl"]
             if len(pw) != 1 or len(pu) != 1:
                 return None
-            values = [v for v in SCALAR_BOUNDS + [2.5, -0.75, 1e300] if _fits(v, spec)]
+            values = [v for v in SCALAR_BOUNDS + [2.5, -0.75, 1e300, float("inf"), float("-inf"), -0.0, 5e-324] if _fits(v, spec)]
             for v in values:
                 v = c_convert(v, spec)
                 arr, m1 = run_function(fw, {pw[0]: v}, typed=True, header=h)
@@ -681,7 +684,8 @@ def scalar_converter_verdict(h) -> Optional[Dict[str, List[str]]]:
                 except CError:
                     out["roundtrip"].append(f"unwrap<{t}> refuses what wrap<{t}>({v}) made")
                     continue
-                if back != v or isinstance(back, bool) != isinstance(v, bool) and spec[1] == "b":
+                import math as _math
+                if back != v or (isinstance(v, float) and _math.copysign(1.0, back) != _math.copysign(1.0, v)) or isinstance(back, bool) != isinstance(v, bool) and spec[1] == "b":
                     out["roundtrip"].append(f"{t} {v} comes back as {back} (through a {arr.cls} array holding bytes {bytes(arr.raw).hex()})")
             for cls, cspec in sorted(MX_CLASSES.items()):
                 if cls in ("mxCHAR_CLASS", "mxSINGLE_CLASS"):
